@@ -546,7 +546,7 @@ func TestVerif_C16_Faults(t *testing.T) {
 	r.Require("faults_fired_under_auto_rebuild", int64(150/shards))
 	r.Require("scenarios_auto_rebuild", 1)
 	r.Require("scenarios_auto_rebuild_delta", 1)
-	r.Require("cfgtrans:auto_off_with_pending_revocations", int64(30/shards))
+	r.Require("cfgtrans:auto_off_with_pending_revocations", int64(100/shards))
 	r.Require("crls_parsed", int64(3000/shards))
 	r.Require("crl_number_comparisons", int64(3000/shards))
 	r.Require("crl_number_increase_confirmed", int64(1500/shards))
@@ -574,7 +574,7 @@ func TestVerif_C16_Crash(t *testing.T) {
 	r.Require("crash_between_crl_and_crl_bookkeeping", int64(20/shards))
 	r.Require("crash_between_crl_and_crl_bookkeeping_auto_rebuild", int64(10/shards))
 	r.Require("rotations_after_interruption_under_auto_rebuild", int64(60/shards))
-	r.Require("cfgtrans:auto_off_with_pending_revocations", int64(10/shards))
+	r.Require("cfgtrans:auto_off_with_pending_revocations", int64(60/shards))
 	r.Require("crls_parsed", int64(1500/shards))
 	r.Require("crl_number_comparisons", int64(1500/shards))
 	r.Require("crl_number_increase_confirmed", int64(800/shards))
